@@ -2,3 +2,4 @@ import SmtpV.Props.C11
 #print axioms SmtpV.Props.C11.C11_exact_mailbox
 #print axioms SmtpV.Props.C11.C11_special_refused
 #print axioms SmtpV.Props.C11.C11_null_sender
+#print axioms SmtpV.Props.C11.C11_quoted_exact
